@@ -18,7 +18,9 @@ M6 = 1000000
 
 
 def micro(p) -> int:
-    return int(round(float(p) * M6))
+    """probability in 1e-6 units; a non-finite value becomes -1 (no probability: every clause about it fails, none raises)"""
+    p = float(p)
+    return int(round(p * M6)) if math.isfinite(p) and abs(p) < 2000 else -1
 
 
 def all_masks(n, nonempty=True):
@@ -29,7 +31,12 @@ def all_masks(n, nonempty=True):
 
 def cat_case(w, m, via: str, keys) -> dict:
     w_arr = jnp.asarray(w, dtype=jnp.float32)
-    base = Categorical(probs=w_arr / w_arr.sum()) if via == "probs" else Categorical(logits=jnp.log(w_arr))
+    if via == "logits_forbidden_dominant":
+        # the masked law does not depend on the preferences of the forbidden classes at all: give them logits 120 nats above
+        # every allowed one (their unmasked probability is 1 - 1e-52: zeroing *probabilities* instead of logits divides 0 by 0)
+        base = Categorical(logits=jnp.log(w_arr) + jnp.where(jnp.asarray(m), 0.0, 120.0))
+    else:
+        base = Categorical(probs=w_arr / w_arr.sum()) if via == "probs" else Categorical(logits=jnp.log(w_arr))
     d = base if all(m) and via == "probs" else base.mask(jnp.asarray(m))
     probs = np.asarray(d.probs)
     allowed = [i for i in range(len(w)) if m[i]]
@@ -75,13 +82,14 @@ def bern_case(a, m, keys) -> dict:
                 samples=samples, atoms=atoms)
 
 
-def multi_case(dims, w, m, keys) -> dict:
+def multi_case(dims, w, m, keys, boost: float = 0.0) -> dict:
+    """boost: added to the logits of the FORBIDDEN classes of the flat parameterisation (the masked law must not depend on it)"""
     w_arr = jnp.asarray(w, dtype=jnp.float32)
     pieces, off = [], 0
     for dsz in dims:
         pieces.append(w_arr[off:off + dsz])
         off += dsz
-    flat = MultiCategorical(logits=jnp.log(w_arr), action_dims=dims)
+    flat = MultiCategorical(logits=jnp.log(w_arr) + jnp.where(jnp.asarray(m), 0.0, boost), action_dims=dims)
     seq = MultiCategorical(probs=[p / p.sum() for p in pieces])
     mj = jnp.asarray(m)
     d = flat.mask(mj)
@@ -315,6 +323,12 @@ def _logp(policy, obs, action):
     return float(policy.evaluate_action(None, obs, action)[2])
 
 
+def _dominate_forbidden(pol, where, m, boost: float):
+    """the same policy with the output bias of every FORBIDDEN class raised by `boost`: the preferences among the allowed actions
+    are unchanged, so masked behaviour (greedy choice, support, reported log-probability) must be unchanged as well"""
+    return eqx.tree_at(where, pol, where(pol) + jnp.where(jnp.asarray(m), 0.0, boost))
+
+
 def policy_cases(kind: str, seed: int, n_keys: int, n: int = 3) -> list:
     """All non-empty masks x modes for one randomly initialised production policy and observation."""
     k0, k1 = jr.split(jr.key(seed))
@@ -336,6 +350,16 @@ def policy_cases(kind: str, seed: int, n_keys: int, n: int = 3) -> list:
                 lp2 = pol.evaluate_action(None, obs, a, action_mask=mj)[2]
                 out.append(dict(ev="policy", mode="sample", comps=[dict(ranks=ranks, m=m, a=int(a))], kind=kind,
                                 atoms={"ReportedLogProbIsOfTheSameMaskedLaw": bool(abs(float(lp) - float(lp2)) <= 1e-5)}))
+            if not all(m):      # forbidden actions preferred by 120 nats before masking
+                pol2 = _dominate_forbidden(pol, lambda p: p.action_head.action_dist.mapping.bias, m, 120.0)
+                _, a = pol2(None, obs, action_mask=mj)
+                out.append(dict(ev="policy", mode="greedy", comps=[dict(ranks=ranks, m=m, a=int(a))], atoms={}, kind=kind, dominated=True))
+                for k in range(min(n_keys, 3)):
+                    kk = jr.key(seed * 131 + k)
+                    _, a, _, lp = pol2.action_and_value(None, obs, key=kk, action_mask=mj)
+                    lp1 = pol.evaluate_action(None, obs, a, action_mask=mj)[2] if m[int(a)] else jnp.nan
+                    out.append(dict(ev="policy", mode="sample", comps=[dict(ranks=ranks, m=m, a=int(a))], kind=kind, dominated=True,
+                                    atoms={"MaskedLawIgnoresForbiddenPreferences": bool(abs(float(lp) - float(lp1)) <= 1e-4)}))
     elif kind == "multidisc":
         dims = (2, 3)
         env = SpaceEnv(MultiDiscrete(dims))
@@ -362,6 +386,19 @@ def policy_cases(kind: str, seed: int, n_keys: int, n: int = 3) -> list:
                 out.append(dict(ev="policy", mode="sample", kind=kind,
                                 comps=[dict(ranks=rk[c], m=pieces[c], a=int(a[c])) for c in range(2)],
                                 atoms={"ReportedLogProbIsOfTheSameMaskedLaw": bool(abs(float(lp) - float(lp2)) <= 1e-5)}))
+            if not all(m):
+                pol2 = _dominate_forbidden(pol, lambda p: p.action_head.action_dist.mapping.bias, m, 120.0)
+                _, a = pol2(None, obs, action_mask=mj)
+                out.append(dict(ev="policy", mode="greedy", kind=kind, atoms={}, dominated=True,
+                                comps=[dict(ranks=rk[c], m=pieces[c], a=int(a[c])) for c in range(2)]))
+                for k in range(min(n_keys, 3)):
+                    kk = jr.key(seed * 131 + k)
+                    _, a, _, lp = pol2.action_and_value(None, obs, key=kk, action_mask=mj)
+                    legal = all(pieces[c][int(a[c])] for c in range(2))
+                    lp1 = pol.evaluate_action(None, obs, a, action_mask=mj)[2] if legal else jnp.nan
+                    out.append(dict(ev="policy", mode="sample", kind=kind, dominated=True,
+                                    comps=[dict(ranks=rk[c], m=pieces[c], a=int(a[c])) for c in range(2)],
+                                    atoms={"MaskedLawIgnoresForbiddenPreferences": bool(abs(float(lp) - float(lp1)) <= 1e-4)}))
     elif kind == "multibin":
         nb = 3
         env = SpaceEnv(MultiBinary(nb))
@@ -398,6 +435,10 @@ def policy_cases(kind: str, seed: int, n_keys: int, n: int = 3) -> list:
                     dep = float(np.mean(acts != int(a)))
                     atoms["DepartsFromGreedyWithProbabilityAtMostEpsilon"] = bool(dep <= eps + 6.0 * math.sqrt(eps * (1 - eps) / N) + 2.0 / N)
                 out.append(dict(ev="policy", mode="greedy", kind=f"q_eps{eps}", atoms=atoms, comps=[dict(ranks=ranks, m=m, a=int(a))]))
+                if not all(m):      # forbidden actions with by far the highest values
+                    pol2 = _dominate_forbidden(pol, lambda p: p.q_network.layers[-1].bias, m, 1e4)
+                    _, a2 = pol2(None, obs, action_mask=mj)
+                    out.append(dict(ev="policy", mode="greedy", kind=f"q_eps{eps}", atoms={}, comps=[dict(ranks=ranks, m=m, a=int(a2))], dominated=True))
                 for k in range(n_keys):
                     _, a = pol(None, obs, key=jr.key(seed * 131 + k), action_mask=mj)
                     out.append(dict(ev="policy", mode=mode, kind=f"q_eps{eps}", atoms={}, comps=[dict(ranks=ranks, m=m, a=int(a))]))
